@@ -37,16 +37,34 @@ def write_dict(model: Model):
         raise AnalysisError(f"config.write: expected one toml.dumps call, found {len(dumps)}")
     a = dumps[0].args[0]
     d = a
-    if isinstance(a, ast.Name):
-        defs = cfg.reaching(cfg.node_for(dumps[0]), a.id)
-        if len(defs) != 1 or not isinstance(defs[0].value, ast.Dict):
+    at = cfg.node_for(dumps[0])
+    filters = []
+    steps = 0
+    while isinstance(d, ast.Name) and steps < 5:
+        steps += 1
+        defs = cfg.reaching(at, d.id)
+        if len(defs) != 1 or defs[0].value is None:
             raise AnalysisError("config.write: serialised value is not a single dict literal")
-        d = defs[0].value
+        v = defs[0].value
+        at = defs[0].node
+        # `{k: v for k, v in X.items() if cond}`: a filter over the literal
+        if isinstance(v, ast.DictComp) and len(v.generators) == 1 and isinstance(v.generators[0].iter, ast.Call) \
+                and callee_tail(v.generators[0].iter) == "items" and isinstance(v.generators[0].iter.func.value, ast.Name):
+            g = v.generators[0]
+            tv = g.target.elts if isinstance(g.target, ast.Tuple) and len(g.target.elts) == 2 else None
+            if tv is None or norm(v.key) != norm(tv[0]) or norm(v.value) != norm(tv[1]):
+                raise AnalysisError(f"config.write: dict comprehension {short(v)} rewrites keys or values (idiom not enumerated)")
+            for c in g.ifs:
+                filters.append((c, norm(tv[1])))
+            d = g.iter.func.value
+            continue
+        d = v
     if not isinstance(d, ast.Dict):
-        raise AnalysisError("config.write: serialised value is not a dict literal")
+        raise AnalysisError("config.write: serialised value is not a single dict literal")
     params = fi.params
     if len(params) < 2:
         raise AnalysisError("config.write: expected (dest, config) parameters")
+    write_dict.filters = filters
     return fi, d, params[1]
 
 
@@ -218,6 +236,14 @@ def r10a(model: Model, rr: RuleResult):
                    construct=f"'{k.value}': {short(v)}")
         else:
             rr.ok(f"write key '{k.value}' <- {cfg_param}.{k.value}")
+    for cond, vname in getattr(write_dict, "filters", []):
+        t = norm(cond).replace(" ", "")
+        if t in (f"{vname}isnotNone", f"notNoneis{vname}"):
+            rr.ok("config.write leaves out None values only")
+        else:
+            rr.bad(wfi, cond, f"config.write drops every entry for which `{short(cond)}` is false: a legitimately falsy setting (width = 0, descender = 0, "
+                   f"keep_glyph_names = false, version_minor = 0) never reaches the worker, which then applies the default instead",
+                   construct=f"write: entries filtered by {short(cond)}")
     for f in scalar:
         if f not in keys:
             rr.bad(wfi, d, f"config.write does not serialise FontConfig field '{f}': the worker would see the default",
@@ -537,3 +563,32 @@ def r10d(model: Model, rr: RuleResult):
             rr.ok(f"leftover keys in {var} raise")
         else:
             rr.bad(rfi, rfi.node, f"unconsumed keys in {var} are not rejected", construct=f"from_json: no 'if {var}: raise'")
+
+
+@RULES.rule("C10", "R10f", "axes and masters cross the config hand-off in their declared order", floor=2)
+def r10f(model: Model, rr: RuleResult):
+    wfi, d, cfg_param = write_dict(model)
+    lfi = model.func("config", "load")
+    lcfg = cfg_of(lfi)
+    for key, field, lst in (("axis", "axes", "axes"), ("master", "masters", "masters")):
+        v = next((vv for k, vv in zip(d.keys, d.values) if isinstance(k, ast.Constant) and k.value == key), None)
+        if not isinstance(v, ast.DictComp) or len(v.generators) != 1:
+            raise AnalysisError(f"config.write: '{key}' is not a single-generator dict comprehension")
+        it = v.generators[0].iter
+        # does load keep the file order? (list appended in a loop over the table's items, converted with tuple(), never sorted)
+        ctor_kw = None
+        for c in calls_in(lfi, nested=True):
+            if norm(c.func) == "FontConfig":
+                ctor_kw = kwarg(c, field)
+        if ctor_kw is None:
+            raise AnalysisError(f"config.load: FontConfig(... {field}=...) not found")
+        load_sorts = any(isinstance(n, ast.Call) and norm(n.func) in ("sorted", "set", "frozenset") for n in ast.walk(ctor_kw))
+        if load_sorts:
+            rr.ok(f"load canonicalises {field}: the order written is irrelevant")
+            continue
+        if norm(it) == f"{cfg_param}.{field}" and not v.generators[0].ifs:
+            rr.ok(f"write iterates {cfg_param}.{field} as it is; load keeps the file order ({short(ctor_kw)})")
+        else:
+            rr.bad(wfi, it, f"config.write iterates {short(it)} for '{key}' while config.load keeps the order of the file: the worker sees "
+                   f"FontConfig.{field} in a different order than the driver resolved (e.g. wght declared before wdth comes back as wdth, wght)",
+                   construct=f"write '{key}': for ... in {short(it)}")
